@@ -125,6 +125,15 @@ def run(check, an: Analysis):
     check.rule('F', 'FIFO discipline of Notification._waiting (append / pop(0) / remove)')
     check.rule('B', '`available` is true exactly under the no-wait condition of __aenter__')
     an.cls(LOCK)
+    # the nesting counter: the attribute the constructor sets to the number 0
+    linit = an.method(LOCK, '__init__')
+    counters = [ast.unparse(t) for n in ast.walk(linit.node)
+                if isinstance(n, (ast.Assign, ast.AnnAssign)) and isinstance(
+                    n.value, ast.Constant) and n.value.value == 0
+                and not isinstance(n.value.value, bool)
+                for t in (n.targets if isinstance(n, ast.Assign) else [n.target])
+                if ast.unparse(t).startswith('self.')]
+    DEPTH = counters[0] if len(counters) == 1 else 'self._depth'
     aenter = an.callee(LOCK, '__aenter__')
     aexit = an.callee(LOCK, '__aexit__')
     release = an.callee(LOCK, '__release__')
@@ -247,7 +256,7 @@ def run(check, an: Analysis):
     for path in enter_paths:
         if not path.normal:
             continue
-        ups = [e for e in path.events if e.kind == 'store' and e['path'] == 'self._depth'
+        ups = [e for e in path.events if e.kind == 'store' and e['path'] == DEPTH
                and e.depth == 0]
         ok = len(ups) == 1 and isinstance(ups[0]['aug'], ast.Add) and \
             _const_value(ups[0]['value']) == 1
@@ -268,20 +277,20 @@ def run(check, an: Analysis):
             if not path.normal:
                 continue
             downs = [(i, e) for i, e in enumerate(path.events) if e.kind == 'store'
-                     and e['path'] == 'self._depth' and e.depth == 0]
+                     and e['path'] == DEPTH and e.depth == 0]
             released = any(is_call_to(e, '__release__') and e.depth == 0 and
                            e.kind != 'leave' for e in path.events)
             # the new depth in terms of the old one, and the test `new depth == 0`
             is_zero, n_zero, minus_one = None, 0, False
             if len(downs) == 1:
                 at, down = downs[0]
-                new_depth = _attr_update(path, at, down, 'self._depth')
+                new_depth = _attr_update(path, at, down, DEPTH)
                 minus_one = new_depth is not None and equal_algebra(new_depth, 'OLD_ - 1')
                 for pos in range(at + 1, len(path.events)):
                     test = path.events[pos]
                     if test.kind != 'test' or test.depth != 0:
                         continue
-                    truth = _zero_test(path, pos, test, 'self._depth', at, new_depth)
+                    truth = _zero_test(path, pos, test, DEPTH, at, new_depth)
                     if truth is not None:
                         n_zero += 1
                         is_zero = truth
